@@ -135,6 +135,8 @@ type aboFlat struct {
 	funcs  map[string]*ast.FuncDecl
 	ev     []string
 	stack  map[string]bool
+	// file that declares the entry points (plain-function helpers are recognised by living in the same file)
+	pipelineFile string
 }
 
 // rename identifiers of a flat expression text (not those that follow a '.')
@@ -234,12 +236,20 @@ func (a *aboFlat) expandable(ce *ast.CallExpr, name string, inVerify bool) *ast.
 	if fd == nil || fd.Name.Name != name || aboOpaque[name] || a.stack[name] || !aboReturnsErrorLast(fd) {
 		return nil
 	}
-	if fd.Recv == nil || len(fd.Recv.List) != 1 || recvTypeName(fd.Recv.List[0].Type) != "LedgerStoreImp" {
-		return nil // a method of one of the stores / caches, or a package-level function: a leaf
-	}
-	if se, ok := ce.Fun.(*ast.SelectorExpr); ok { // this.f(..) only, not this.blockStore.f(..) or pkg.f(..)
-		if _, ok := se.X.(*ast.Ident); !ok {
+	switch {
+	case fd.Recv == nil:
+		// a plain function is a pipeline helper only when it is declared in the file of the pipeline itself (helpers extracted from
+		// verifyHeader / submitBlock live there; SaveNotify & co. of other files stay leaves) and is called by its bare name
+		if _, bare := ce.Fun.(*ast.Ident); !bare || a.fset.Position(fd.Pos()).Filename != a.pipelineFile {
 			return nil
+		}
+	case len(fd.Recv.List) != 1 || recvTypeName(fd.Recv.List[0].Type) != "LedgerStoreImp":
+		return nil // a method of one of the stores / caches: a leaf
+	default:
+		if se, ok := ce.Fun.(*ast.SelectorExpr); ok { // this.f(..) only, not this.blockStore.f(..) or pkg.f(..)
+			if _, ok := se.X.(*ast.Ident); !ok {
+				return nil
+			}
 		}
 	}
 	if aboWrites(a.byName, name) && !memMutators[name] {
@@ -302,11 +312,11 @@ func (a *aboFlat) stmts(sc *aboScope, list []ast.Stmt, cond bool, inVerify bool)
 			}
 		}
 	}
-	var call func(e ast.Expr)
-	call = func(e ast.Expr) {
+	var call func(e ast.Expr) (leaf bool)
+	call = func(e ast.Expr) (leaf bool) {
 		ce, name, ok := aboCallee(e)
 		if !ok {
-			return
+			return false
 		}
 		for _, arg := range ce.Args { // calls nested in the arguments run first
 			if _, _, ok := aboCallee(arg); ok {
@@ -326,9 +336,10 @@ func (a *aboFlat) stmts(sc *aboScope, list []ast.Stmt, cond bool, inVerify bool)
 			}
 			a.run(fd, args, cond, inVerify)
 			lastCall = "" // its own guards were listed; the caller's `if err != nil` only passes them on
-			return
+			return false
 		}
 		lastCall = name
+		leaf = true
 		if aboWrites(a.byName, name) || aboFuncLitWrites(a.byName, ce) {
 			text := a.canon(sc, ce.Fun)
 			// a method of a value held in a parameter / local (not reached through the receiver): the variable is dropped, so the
@@ -338,6 +349,7 @@ func (a *aboFlat) stmts(sc *aboScope, list []ast.Stmt, cond bool, inVerify bool)
 			}
 			a.emit(cond, "write", text)
 		}
+		return leaf
 	}
 	exits := func(b *ast.BlockStmt) (bool, bool) { return aboReturnsNil(b) }
 	for _, st := range list {
@@ -351,7 +363,10 @@ func (a *aboFlat) stmts(sc *aboScope, list []ast.Stmt, cond bool, inVerify bool)
 			bind(s.Lhs)
 		case *ast.ReturnStmt:
 			for _, r := range s.Results {
-				call(r)
+				// `return f(..)` of a leaf call in a pipeline function = `err := f(..); if err != nil { return err }; return nil`
+				if call(r) && len(s.Results) == 1 && aboReturnsErrorLast(sc.fd) && sc.fd.Type.Results != nil {
+					a.emit(cond, "errguard", lastCall)
+				}
 			}
 		case *ast.DeclStmt, *ast.DeferStmt, *ast.IncDecStmt, *ast.EmptyStmt:
 		case *ast.RangeStmt:
@@ -379,8 +394,11 @@ func (a *aboFlat) stmts(sc *aboScope, list []ast.Stmt, cond bool, inVerify bool)
 				}
 			}
 			if strings.Contains(ctext, "\"vbft\"") { // the consensus-type branch of verifyHeader: the non-VBFT path is modelled
-				if eb, ok := s.Else.(*ast.BlockStmt); ok {
+				switch eb := s.Else.(type) {
+				case *ast.BlockStmt:
 					a.stmts(sc, eb.List, cond, inVerify)
+				case *ast.IfStmt: // `} else if err := helper(..); err != nil { return err }`
+					a.stmts(sc, []ast.Stmt{eb}, cond, inVerify)
 				}
 				continue
 			}
@@ -423,7 +441,25 @@ func (a *aboFlat) stmts(sc *aboScope, list []ast.Stmt, cond bool, inVerify bool)
 			}
 		case *ast.SwitchStmt:
 			for _, c := range s.Body.List {
-				a.stmts(sc, c.(*ast.CaseClause).Body, true, inVerify)
+				cc := c.(*ast.CaseClause)
+				isRet, isNil := aboReturnsNil(&ast.BlockStmt{List: cc.Body})
+				if s.Tag == nil && cc.List != nil && isRet { // `case c: return e` of a tag-less switch = `if c { return e }`
+					var texts []string
+					for _, ce := range cc.List {
+						texts = append(texts, a.canon(sc, ce))
+					}
+					for _, inner := range cc.Body[:len(cc.Body)-1] {
+						a.stmts(sc, []ast.Stmt{inner}, true, inVerify)
+					}
+					text := strings.Join(texts, "||")
+					if isNil {
+						a.emit(cond, "stop", text)
+					} else {
+						a.emit(cond, "guard", text)
+					}
+					continue
+				}
+				a.stmts(sc, cc.Body, true, inVerify)
 			}
 		}
 	}
@@ -458,7 +494,7 @@ func genAddBlockOrder(repo string) (string, error) {
 		if fd == nil {
 			return "", fmt.Errorf("%s: method LedgerStoreImp.%s not found", dir, e.fn)
 		}
-		a := &aboFlat{fset: fset, byName: byName, funcs: funcs, stack: map[string]bool{}}
+		a := &aboFlat{fset: fset, byName: byName, funcs: funcs, stack: map[string]bool{}, pipelineFile: fset.Position(fd.Pos()).Filename}
 		args, _ := a.entryArgs(fd)
 		a.run(fd, args, false, false)
 		for i := range a.ev {
